@@ -349,9 +349,9 @@ MENU = [
     st("e = E.A.(x);", _set("e", lambda E: ("A", E.x))),
     st("e = E.B;", _set("e", lambda E: ("B",))),
     st("e = E.C.(s);", _set("e", lambda E: ("C", copy.deepcopy(E.s)))),
-    st("switch v in e { .A => { x = v; }, .B => { x = -1; }, .C => { x = v.a; } }", _switch_e),
+    st("switch v in e { .A => { x = i32.(v); }, .B => { x = -1; }, .C => { x = v.a; } }", _switch_e),
     st("switch v in e { .C => { y = v.b; }, _ => { y = 1; } }", _switch_e_default),
-    st("if #is_variant(e, E.A) { x = #unwrap(e, E.A) + 1; }", _unwrap_e),
+    st("if #is_variant(e, E.A) { x = i32.(#unwrap(e, E.A)) + 1; }", _unwrap_e),
     st("b = #is_variant(e, E.B);", _set("b", lambda E: E.e[0] == "B")),
     st("o = x;", _set("o", lambda E: ("some", E.x))),
     st("o = nil;", _set("o", lambda E: ("nil",))),
